@@ -124,10 +124,18 @@ def run_branch(logic: Logic, body, m, outvar, invars, tvars, arr='self.c', junk=
             nm = node.slice.id
             if nm in store:
                 return nm
+        if isinstance(node, ast.Name) and node.id in views:
+            return views[node.id]
         return None
+
+    views = {}   # local name -> location it is a view of (`scratch = self.c[t1]`)
 
     for st in body:
         if isinstance(st, ast.Expr) and isinstance(st.value, ast.Constant):
+            continue
+        if isinstance(st, ast.Assign) and len(st.targets) == 1 and isinstance(st.targets[0], ast.Name) and st.targets[0].id not in store \
+                and isinstance(st.value, ast.Subscript) and loc_of(st.value) is not None:
+            views[st.targets[0].id] = loc_of(st.value)   # basic indexing of an ndarray with an integer: a view
             continue
         if isinstance(st, ast.Assign) and len(st.targets) == 1:
             t, s = loc_of(st.targets[0]), loc_of(st.value)
